@@ -16,13 +16,13 @@ def run(ctx):
     probe = Path(ctx.scratch) / "probe_reclist.tl"
     probe.write_text(PROBE_RECLIST)
     extra = [("probe_reclist", [probe], ["--tl2WhiteList=*"], "*", True)]
-    cres, thm, ref, ref_err, bins, berr, units = common_setup(ctx, PROPS, 3 if quick else 40, extra + [wide_spec(ctx)])
+    cres, thm, ref, ref_err, bins, berr, units = common_setup(ctx, PROPS, 3 if quick else 9, extra + [wide_spec(ctx)])
     # TL2-origin schemas (.tl2): not modelled, model-free oracle only
-    t2units = tl2_origin_units(ctx, bins, 2 if quick else 20) if not berr else []
+    t2units = tl2_origin_units(ctx, bins, 2 if quick else 6) if not berr else []
     t2stats = {}
     t2rngs = {u.name: random.Random(ctx.rng.getrandbits(64)) for u in t2units}
-    nrand = 4 if quick else 40
-    ntl1 = 4 if quick else 40
+    nrand = 4 if quick else 12
+    ntl1 = 4 if quick else 12
     nmut = 2 if quick else 6
     stats = {"schemas": 0, "types": 0, "valid_values": 0, "mutated_inputs": 0, "random_inputs": 0, "rw_ops": 0, "idem_ops": 0,
              "go_accepts_mutated": 0, "kernel_rejected": 0, "units_outside_model": 0}
@@ -149,7 +149,7 @@ def run(ctx):
             with lock:
                 unit_errors.append((u.name, u.error))
             return
-        ubad, st = oracle_only_run("C03", u, t2rngs[u.name], 6 if quick else 40, nmut)
+        ubad, st = oracle_only_run("C03", u, t2rngs[u.name], 6 if quick else 18, nmut)
         with lock:
             bad.extend(ubad)
             t2stats[u.name] = st
